@@ -261,3 +261,78 @@ def gen_fees(rng, n, tier):
             ops.append("q bals")
         hs.append(History(ops, tags=tags | {"fees"}))
     return hs
+
+
+# ------------------------------------------------------------------------------------------ C07 / C08
+FEE_GAS = 21000
+
+
+def starve(r, who, price):
+    """transfer that leaves `who` with less than one fee"""
+    left = r.choice([0, 1, FEE_GAS * price - 1])
+    return f"xfer {who} u0 {10 ** 12 - FEE_GAS * price - left}"
+
+
+BVM_CALLS = [
+    "store Set s:k{n} s:v{n}", "store Get s:k{n}", "store Set s:k{n}", "store Nope s:a",
+    "txmgr Begin s:{id} u:3 b:0", "txmgr Report s:{id} i:1", "txmgr GetStatus s:{id}",
+    "interchain GetInterchain s:1356:c1:s1", "interchain DeleteInterchain s:1356:c1:s1",
+    "interchain Register s:1356:c9:s9", "interchain GetIBTPByID s:{id} b:1",
+    "appchain GetAppchain s:c1", "appchain PauseChain s:c1", "appchain RegisterAppchain s:c7 s:n7 s:Fabric_V1.4.3 x:00 s:b s:d s:0x00000000000000000000000000000000000000a2 s:u s:adm s:r",
+    "service PauseChainService s:c1", "service GetServiceInfo s:c1:s1", "service RegisterService s:c1 s:s9 s:n9 s:CallContract s:i s:1 s:p s:d s:r",
+    "role GetRoleInfoById s:{addr}", "role RegisterRole s:{addr} s:governanceAdmin s:x s:r", "role FreezeRole s:{addr} s:r",
+    "rule RegisterRule s:c1 s:0x00000000000000000000000000000000000000a2 s:u s:r", "governance GetProposal s:p1", "governance Vote s:p1 s:approve s:r",
+    "dapp GetDapp s:d1", "node GetNode s:n1", "trust GetTrustMeta s:c1",
+]
+
+
+def bvm_call(r, ids):
+    c = r.choice(BVM_CALLS)
+    return c.format(n=r.randint(0, 3), id=(r.choice(ids) if ids else "1356:c1:s1-1356:c2:s1-1"),
+                    addr="0x00000000000000000000000000000000000000b" + str(r.randint(0, 3)))
+
+
+def gen_c07(rng, n, tier):
+    """Failing transactions at every stage (check-rejected, contract error, fee failure after processing) from fee-starved
+    signers, each bracketed by full state dumps; read-only (view) executions bracketed the same way."""
+    import random as _r
+    hs = []
+    for _ in range(n):
+        r = _r.Random(rng.getrandbits(64))
+        g = ExecGen(r, focus="single", price=r.choice([1, 1, 2]))
+        price = int(g.ops[0].split("price=")[1])
+        poor = ["u3"] + r.sample(["ca1", "ca2", "ca3", "u2"], r.choice([1, 2, 2, 3]))
+        g.ops.append("block " + " | ".join(starve(r, p, price) for p in poor))
+        g.tags.add("c07")
+        for _ in range(r.randint(4, 10)):
+            k = r.random()
+            if k < 0.3:
+                g.block()          # ordinary traffic (signers that are starved fail their fees here, too)
+                continue
+            if k < 0.42:
+                g.ops.append("q dump")
+                for _ in range(r.randint(1, 3)):
+                    g.ops.append("q view " + bvm_call(r, g.ids))
+                g.ops.append("q dump")
+                continue
+            # a block of failing candidates by starved signers
+            txs = []
+            for _ in range(r.choice([1, 1, 1, 2, 3])):
+                p = r.choice(poor)
+                m = r.random()
+                if m < 0.45:
+                    tx = g.tx_req() if r.random() < 0.6 else g.tx_rcpt()
+                    ws = tx.split()
+                    chain = (ws[2] if ws[5] == "req" else ws[3]).split(":")[0]
+                    ws[1] = {"c1": "ca1", "c2": "ca2", "c3": "ca3"}[chain] if r.random() < 0.8 else p
+                    txs.append(" ".join(ws))
+                elif m < 0.8:
+                    txs.append(f"bvm {p} " + bvm_call(r, g.ids))
+                else:
+                    txs.append(f"xfer {p} {r.choice(USERS)} {r.choice(['0', '1', '5', '999999999999999', 'abc', '-3'])}")
+            g.ops.append("q dump")
+            g.ops.append("block " + " | ".join(txs))
+            g.ops.append("q dump")
+            g.observe()
+        hs.append(History(g.ops, tags=g.tags))
+    return hs
